@@ -74,6 +74,16 @@ CHECKS["C14"] = dict(category="exploration",
            "the real generate_domains pipeline on 2-4 genes are asserted.",
       note="Trusted: classification table CLASSIFICATIONS as the alphabet; trans-AT taken as the code's definition (subtype or docking domain).",
       design="3/C14")
+CHECKS["C03"] = dict(category="exploration",
+      technique="Hypothesis records/rulesets through the real detection pipeline (dynamic profiles only) against a set-of-bases component/hull/extension model; exhaustive 3-gene placements on small rings",
+      text="detect_protoclusters_and_signatures is run on generated records (linear/circular, 30..6000 bases, touching/nested/origin-spanning "
+           "genes) with 1-4 generated rules (mixed cutoffs/neighbourhoods in bases, SUPERIORS chains, EXTENDERS); the anchors captured from "
+           "apply_cluster_rules are grouped into connected components of 'distance < cutoff' on the ring model and compared with the reported "
+           "cores (partition, hull / minimal arc, extender edges), neighbourhood extension (clipped/wrapped) and two-sided superior removal. "
+           "All placements of three genes on rings of length 9..11 (thorough 14) x cutoffs {1,2,3,7} are enumerated.",
+      note="Anchors are taken as the code reports them (C01 decides their correctness). Groups whose smallest covering arc is >= L/2, "
+           "partial superior overlap and extender must-admit on overlapping gene layouts are counted but not asserted (see DESIGN.md section 7).",
+      design="3/C03")
 NOT_YET = {}
 
 def main():
